@@ -1414,7 +1414,8 @@ def _trace_sort_key(w):
             return int(s)
         except ValueError:
             return s
-    return [tryint(c) for c in re.split('([0-9]+)', w)]
+    # the name itself breaks ties between names like "a1" and "a01"
+    return ([tryint(c) for c in re.split('([0-9]+)', w)], w)
 
 
 class TraceStorage(Mapping):
